@@ -5,6 +5,7 @@ import (
 	"go/constant"
 	"go/token"
 	"go/types"
+	"strconv"
 	"strings"
 
 	"golang.org/x/tools/go/ssa"
@@ -32,7 +33,7 @@ func runC10(c *Ctx) {
 	r.Explanation = "C10 NetBIOS names and NBNS packets, decided structurally on go/ssa. " +
 		"R1 (internal/wire layouts) `sym`: NBTNSPacket.Marshal and Unmarshal (including the per-section closure Unmarshal$1 and Marshal's loop over the slice literal of sections) list the same header words and, per section, the same element atoms — name length byte, name (FirstLevelEncode⇄FirstLevelDecode), type, class[, ttl, rdlength, rdata] — in the same order with the same widths; `order`: every multi-byte integer is big-endian on both sides; `spec`: the header is the six 16-bit words of RFC 1002 §4.2.1.1 in order; `count`: the decoder consumes its fields contiguously, the captured cursor is initialised to the header size, every store to it is the end of a read, and each loop iteration leaves it at the end of the element; `guard`: each length check establishes exactly the end of the reads it protects; `length`: the RData read is as long as the value read into RDLength, and the name read is as long as its length byte. " +
 		"R2 `sections`: each of the four sections is emitted by Marshal (a range over that section) and filled by Unmarshal (a loop bounded by that section's header count appending to that section), in RFC order; `counts`: the count word Marshal emits for a section is len(section), so that the header describes what follows. " +
-		"R3 `firstlevel` (internal/lanes bit provenance with the `± 'A'` offset peeled, index forms as linear forms in the loop counter): FirstLevelEncode writes (name[i] bits 4-7)+K at byte 2i and (name[i] bits 0-3)+K at 2i+1; FirstLevelDecode subtracts the same K from bytes 2i and 2i+1, bounds both by 0x0F (E1) and reassembles (hi<<4)|lo into byte i; K = ASCII_A = 0x41 on both sides; buffers and loop bounds are 16/32 = NetBIOSNameLength/EncodedNameLength and the decoder insists on len == 32 (E1); the pad byte stored after the name is ' ' and the decoder trims exactly that byte; the scope separator appended by the encoder is the one SplitN(…, 2) splits on. " +
+		"R3 `firstlevel` (internal/lanes bit provenance with the `± 'A'` offset — or a look-up in a constant alphabet T with T[j] = K+j — peeled, index forms as linear forms in the loop counter; the encoder is summarised as emit groups, one per counted loop producing two bytes per iteration, collected either from stores encoded[2i], encoded[2i+1] or from append(encoded, hi, lo), with the source byte being a padded 16-byte buffer, the padded string Name+strings.Repeat(P, 16-len(Name)), or Name[i] itself followed by a group of constants that encode the pad byte): FirstLevelEncode writes (name[i] bits 4-7)+K at byte 2i and (name[i] bits 0-3)+K at 2i+1; FirstLevelDecode subtracts the same K from bytes 2i and 2i+1, bounds both by 0x0F (E1) and reassembles (hi<<4)|lo into byte i (a store decoded[i] = … into a 16-byte buffer or array, or decoded = append(decoded, …) from an empty slice); K = ASCII_A = 0x41 on both sides; buffers and loop bounds are 16/32 = NetBIOSNameLength/EncodedNameLength and the decoder insists on len == 32 (E1); the pad byte stored after the name is ' ' and the decoder trims exactly that byte; the scope separator emitted immediately before the ScopeID bytes is the one the decoder splits on at its FIRST occurrence (SplitN(…, 2), Cut, or Index/IndexByte with s[:i], s[i+1:]). " +
 		"NOT decided: conformance of the name FIELD to RFC 1002 §4.1 (Marshal emits `len | text[.scope]` with no terminating root label and the scope as dotted text rather than labels, Unmarshal expects the same: self-consistent, so invisible without an independent parser — recorded as an observation), names that themselves end in spaces (trimmed on decode), names starting with '*' (rejected by Validate), scope syntax, and value-level consistency RDLength == len(RData), which Marshal takes on trust."
 	r.Assumptions = []string{
 		"go/types + go/ssa (x/tools v0.50.0) are faithful to the source",
@@ -41,6 +42,7 @@ func runC10(c *Ctx) {
 		"bytes.TrimRight(s, cutset) removes exactly the trailing bytes contained in cutset; strings.SplitN(s, sep, 2) splits at the first sep",
 	}
 	w := prove.NewWorld(p)
+	wSetUnits(c, nbtnsPkg, [2]string{"NBTNSPacket", "Marshal"}, [2]string{"NBTNSPacket", "Unmarshal"}, [2]string{"NetBIOSName", "FirstLevelEncode"}, [2]string{"", "FirstLevelDecode"})
 
 	enc := wEncoder(c, w, nbtnsPkg, "NBTNSPacket", "Marshal")
 	dec := wDecoder(c, w, nbtnsPkg, "NBTNSPacket", "Unmarshal")
@@ -295,26 +297,58 @@ func c10Length(c *Ctx, w *prove.World, enc, dec *wcodec) {
 
 // ---------------------------------------------------------------------------
 // R3 first-level encoding
+//
+// The encoder is decided on a summary that does not depend on how the bytes
+// are collected: a list of EMIT GROUPS — one per counted loop that produces
+// two output bytes per iteration — each with the range [from, to) of its
+// counter i, the two byte values, and the SOURCE byte those values are
+// computed from:
+//
+//	collectors   (O1) stores encoded[2i], encoded[2i+1] into a 32-byte buffer
+//	             (a make or a local array); (O2) append(encoded, hi, lo) in a
+//	             loop (internal/wire layout: a repeat of two 1-byte atoms);
+//	sources      (S1) name16[i] of a 16-byte buffer that holds copy(name16,
+//	             Name) padded by a loop name16[i] = P for i = len(Name)..15;
+//	             (S2) Name[i] itself for i = 0..len(Name)-1, followed by a
+//	             second group of constants for i = len(Name)..15 (the encoding
+//	             of the pad byte, whose value is recovered from the two
+//	             constants); (S3) (Name + strings.Repeat(P, 16-len(Name)))[i];
+//	nibble → char  x + K, or T[x] for a constant string T with T[j] = K + j.
+//
+// Whatever the combination, the obligations are the same five clauses of RFC
+// 1001 §14.1 (high nibble, low nibble, offset 'A', 16 names bytes, pad ' ').
 
 type c10Store struct {
 	st   *ssa.Store
-	buf  ssa.Value // the slice indexed
+	buf  ssa.Value // the slice / array indexed
 	n    int64     // array length behind buf
-	a, b int64     // index = a·i + b
-	iv   ssa.Value // loop counter φ (nil when the index is constant)
+	a, b int64     // index = a·i + b  (i = the loop's iteration variable)
+	hb   *ssa.BasicBlock
+	it   wire.LoopIter
+	loop bool // index depends on a counted loop
 }
 
-// c10FixedBuf: v is a slice over a local byte array of constant length.
+// c10FixedBuf: v is a local byte array of constant length, or a slice over one.
 func c10FixedBuf(v ssa.Value) (int64, bool) {
-	sl, ok := v.(*ssa.Slice)
+	var al *ssa.Alloc
+	high := ssa.Value(nil)
+	switch t := v.(type) {
+	case *ssa.Slice:
+		a, ok := t.X.(*ssa.Alloc)
+		if !ok || t.Low != nil {
+			return 0, false
+		}
+		al, high = a, t.High
+	case *ssa.Alloc:
+		al = t
+	default:
+		return 0, false
+	}
+	pt, ok := al.Type().Underlying().(*types.Pointer)
 	if !ok {
 		return 0, false
 	}
-	al, ok := sl.X.(*ssa.Alloc)
-	if !ok {
-		return 0, false
-	}
-	arr, ok := al.Type().Underlying().(*types.Pointer).Elem().Underlying().(*types.Array)
+	arr, ok := pt.Elem().Underlying().(*types.Array)
 	if !ok {
 		return 0, false
 	}
@@ -322,8 +356,8 @@ func c10FixedBuf(v ssa.Value) (int64, bool) {
 		return 0, false
 	}
 	n := arr.Len()
-	if sl.High != nil {
-		h, isK := wConstOf(sl.High)
+	if high != nil {
+		h, isK := wConstOf(high)
 		if !isK {
 			return 0, false
 		}
@@ -332,22 +366,37 @@ func c10FixedBuf(v ssa.Value) (int64, bool) {
 	return n, true
 }
 
-// c10Index decomposes an index into a·φ + b.
-func c10Index(x *wire.X, idx ssa.Value) (a, b int64, iv ssa.Value, ok bool) {
+// c10LoopAt: the innermost counted loop around an instruction.
+func c10LoopAt(x *wire.X, b *ssa.BasicBlock) (*ssa.BasicBlock, wire.LoopIter, bool) {
+	l := x.LoopOf(b)
+	if l == nil {
+		return nil, wire.LoopIter{}, false
+	}
+	it, ok := x.Iter(l.Header)
+	return l.Header, it, ok
+}
+
+// c10IndexIn decomposes idx into a·i + b for the iteration variable i of it.
+func c10IndexIn(x *wire.X, idx ssa.Value, it wire.LoopIter) (a, b int64, ok bool) {
 	s := x.Sym(idx)
-	if len(s.T) == 0 {
-		return 0, s.K, nil, true
+	si := x.Sym(it.Idx) // φ (+1 for a range loop)
+	if len(si.T) != 1 {
+		return 0, 0, false
 	}
-	if len(s.T) != 1 {
-		return 0, 0, nil, false
-	}
-	for t, k := range s.T {
-		if _, isPhi := t.(*ssa.Phi); !isPhi {
-			return 0, 0, nil, false
+	var phi ssa.Value
+	for t, k := range si.T {
+		if k != 1 {
+			return 0, 0, false
 		}
-		return k, s.K, t, true
+		phi = t
 	}
-	return 0, 0, nil, false
+	a = s.Coef(phi)
+	rest := s.Sub(si.Scale(a))
+	k, isK := rest.Const()
+	if !isK {
+		return 0, 0, false
+	}
+	return a, k, true
 }
 
 func c10Stores(x *wire.X, fn *ssa.Function) []c10Store {
@@ -366,67 +415,120 @@ func c10Stores(x *wire.X, fn *ssa.Function) []c10Store {
 			if !ok {
 				continue
 			}
-			a, bb, iv, ok := c10Index(x, ia.Index)
+			s := c10Store{st: st, buf: ia.X, n: n}
+			if k, isK := x.Sym(ia.Index).Const(); isK {
+				s.b = k
+				out = append(out, s)
+				continue
+			}
+			hb, it, ok := c10LoopAt(x, b)
 			if !ok {
 				continue
 			}
-			out = append(out, c10Store{st: st, buf: ia.X, n: n, a: a, b: bb, iv: iv})
+			a, bb, ok := c10IndexIn(x, ia.Index, it)
+			if !ok {
+				continue
+			}
+			s.a, s.b, s.hb, s.it, s.loop = a, bb, hb, it, true
+			out = append(out, s)
 		}
 	}
 	return out
 }
 
-// c10Peel splits v into x ± K for a constant K (K = 0 when v is not of that form).
-func c10Peel(v ssa.Value) (ssa.Value, int64, bool) {
-	bo, ok := v.(*ssa.BinOp)
-	if !ok {
-		return v, 0, false
+// c10Peel splits v into x + K: an addition / subtraction of a constant, or a
+// look-up T[x] in a constant string with T[j] = K + j for every j (then x must
+// stay below len(T), which the caller checks on the lanes of x: tbl is the
+// table length, 0 when no table is involved).
+func c10Peel(v ssa.Value) (x ssa.Value, k int64, tbl int, ok bool) {
+	table := func(xv, iv ssa.Value) (ssa.Value, int64, int, bool) {
+		c, isC := xv.(*ssa.Const)
+		if !isC || c.Value == nil || c.Value.Kind() != constant.String {
+			return nil, 0, 0, false
+		}
+		s := constant.StringVal(c.Value)
+		if len(s) == 0 || len(s) > 256 {
+			return nil, 0, 0, false
+		}
+		for j := 0; j < len(s); j++ {
+			if int(s[j]) != int(s[0])+j {
+				return nil, 0, 0, false
+			}
+		}
+		return iv, int64(s[0]), len(s), true
 	}
-	switch bo.Op {
-	case token.ADD:
-		if k, isK := wConstOf(bo.Y); isK {
-			return bo.X, k, true
+	switch t := v.(type) {
+	case *ssa.BinOp:
+		switch t.Op {
+		case token.ADD:
+			if k, isK := wConstOf(t.Y); isK {
+				return t.X, k, 0, true
+			}
+			if k, isK := wConstOf(t.X); isK {
+				return t.Y, k, 0, true
+			}
+		case token.SUB:
+			if k, isK := wConstOf(t.Y); isK {
+				return t.X, -k, 0, true
+			}
 		}
-		if k, isK := wConstOf(bo.X); isK {
-			return bo.Y, k, true
+	case *ssa.Lookup:
+		if x, k, n, ok := table(t.X, t.Index); ok {
+			return x, k, n, true
 		}
-	case token.SUB:
-		if k, isK := wConstOf(bo.Y); isK {
-			return bo.X, -k, true
+	case *ssa.Index:
+		if x, k, n, ok := table(t.X, t.Index); ok {
+			return x, k, n, true
 		}
 	}
-	return v, 0, false
+	return v, 0, 0, false
 }
 
-// c10LoopRange: the counter φ runs from `from` while φ < bound.
-func c10LoopRange(iv ssa.Value) (from ssa.Value, bound int64, ok bool) {
-	phi, isPhi := iv.(*ssa.Phi)
-	if !isPhi {
-		return nil, 0, false
-	}
-	hb := phi.Block()
-	for i, p := range hb.Preds {
-		if !hb.Dominates(p) {
-			from = phi.Edges[i]
+// c10ByteRead: v reads one byte base[idx].
+func c10ByteRead(v ssa.Value) (base, idx ssa.Value, ok bool) {
+	switch t := v.(type) {
+	case *ssa.Lookup:
+		if _, isMap := t.X.Type().Underlying().(*types.Map); !isMap {
+			return t.X, t.Index, true
+		}
+	case *ssa.Index:
+		return t.X, t.Index, true
+	case *ssa.UnOp:
+		if ia, ok := t.X.(*ssa.IndexAddr); ok && t.Op == token.MUL {
+			return ia.X, ia.Index, true
 		}
 	}
-	bv, ctr, okb := wire.LoopBound(hb)
-	if !okb || ctr != iv {
-		return nil, 0, false
+	return nil, nil, false
+}
+
+func c10IsLenOf(x *wire.X, v ssa.Value, field string) bool {
+	call, ok := wire.StripConv(v).(*ssa.Call)
+	if !ok {
+		return false
 	}
-	iff := hb.Instrs[len(hb.Instrs)-1].(*ssa.If)
-	cmp := iff.Cond.(*ssa.BinOp)
-	k, isK := wConstOf(bv)
-	if !isK {
-		return nil, 0, false
+	bi, ok := call.Call.Value.(*ssa.Builtin)
+	if !ok || bi.Name() != "len" {
+		return false
 	}
-	switch {
-	case cmp.Op == token.LSS && cmp.X == iv, cmp.Op == token.GTR && cmp.Y == iv:
-		return from, k, from != nil
-	case cmp.Op == token.LEQ && cmp.X == iv, cmp.Op == token.GEQ && cmp.Y == iv:
-		return from, k + 1, from != nil
-	}
-	return nil, 0, false
+	f, _ := x.Desc(wire.StripConv(call.Call.Args[0]))
+	return f == field
+}
+
+// c10Emit is one emit group.
+type c10Emit struct {
+	hb  *ssa.BasicBlock
+	it  wire.LoopIter
+	val [2]ssa.Value
+	pos [2]token.Pos
+	has [2]bool
+}
+
+// c10Padded describes a 16-byte source that is Name followed by pad bytes.
+type c10Padded struct {
+	pad  int64
+	why  string // non-empty: not established
+	pos  token.Pos
+	kind string
 }
 
 func c10FirstLevel(c *Ctx, w *prove.World, fle, fld *wcodec) {
@@ -454,114 +556,541 @@ func c10FirstLevel(c *Ctx, w *prove.World, fle, fld *wcodec) {
 	var encK [2]int64
 	var encOK [2]bool
 	var padByte int64 = -1
-	encSeen := 0
-	encAn := &lanes.Analyzer{}
-	var encIV ssa.Value
-	encAn.Leaf = func(f *lanes.Frame, v ssa.Value) (lanes.Vec, bool) {
-		ld, ok := v.(*ssa.UnOp)
-		if !ok || ld.Op != token.MUL {
-			return nil, false
+	padKey := "FirstLevelEncode: the name is padded to 16 bytes with spaces"
+	padDone := false
+	halfKey := func(h int) string {
+		return fmt.Sprintf("FirstLevelEncode: byte 2i+%d carries the %s nibble of name[i] plus 'A'", h, [2]string{"high", "low"}[h])
+	}
+
+	stores := c10Stores(ex, fle.fn)
+	var groups []*c10Emit
+	byHdr := map[*ssa.BasicBlock]*c10Emit{}
+	collector := ""
+	badStore := false
+	for _, s := range stores {
+		if s.n != encLen || !s.loop {
+			continue
 		}
-		ia, ok := ld.X.(*ssa.IndexAddr)
+		collector = "stores"
+		if s.a != 2 || (s.b != 0 && s.b != 1) {
+			r.Fail("firstlevel", fmt.Sprintf("FirstLevelEncode: store at index %d·i+%d", s.a, s.b), c.P.Rel(s.st.Pos()), fmt.Sprintf("the encoded buffer is written at index %d·i+%d; the two nibbles of name[i] go to 2i and 2i+1", s.a, s.b))
+			badStore = true
+			continue
+		}
+		g := byHdr[s.hb]
+		if g == nil {
+			g = &c10Emit{hb: s.hb, it: s.it}
+			byHdr[s.hb] = g
+			groups = append(groups, g)
+		}
+		if g.has[s.b] {
+			r.Fail("firstlevel", halfKey(int(s.b))+" (stored twice)", c.P.Rel(s.st.Pos()), fmt.Sprintf("byte 2i+%d of the encoding is stored twice in one iteration", s.b))
+			badStore = true
+			continue
+		}
+		g.val[s.b], g.pos[s.b], g.has[s.b] = s.st.Val, s.st.Pos(), true
+	}
+	// the layout of the returned string (O2 groups, and the scope suffix)
+	var layout []wire.Atom
+	for _, alt := range ex.EncLayouts() {
+		if len(wire.Flatten(alt.Atoms)) >= len(wire.Flatten(layout)) {
+			layout = alt.Atoms
+		}
+	}
+	extra := ""
+	if collector == "" {
+		for _, a := range layout {
+			if a.Kind == "repeat" && a.Loop != nil && len(a.Body) == 2 && a.Body[0].Width == 1 && a.Body[1].Width == 1 &&
+				(a.Body[0].Kind == "fixed" || a.Body[0].Kind == "const") && (a.Body[1].Kind == "fixed" || a.Body[1].Kind == "const") &&
+				a.Body[0].Val != nil && a.Body[1].Val != nil && !a.Body[0].Cond && !a.Body[1].Cond {
+				collector = "appends"
+				g := &c10Emit{hb: a.Loop.Header}
+				it, ok := ex.Iter(a.Loop.Header)
+				if !ok {
+					r.Fail("firstlevel", halfKey(0)+" (loop range)", c.P.Rel(a.Pos), "the loop that appends the encoded bytes is not a counted loop")
+					badStore = true
+					continue
+				}
+				g.it = it
+				for h := 0; h < 2; h++ {
+					g.val[h], g.pos[h], g.has[h] = a.Body[h].Val, a.Body[h].Pos, true
+				}
+				groups = append(groups, g)
+				continue
+			}
+			if !a.Cond && a.Kind != "bytes" || (a.Kind == "repeat") {
+				if !(a.Kind == "const" && a.Width == 0) {
+					extra = a.String()
+				}
+			}
+		}
+		if collector == "appends" && extra != "" {
+			r.Fail("firstlevel", "FirstLevelEncode: nibble stores (extra bytes)", fle.pos, "besides the two bytes per name byte the encoder unconditionally emits "+extra)
+			badStore = true
+		}
+	}
+
+	// classify the source byte of a group
+	type srcInfo struct {
+		kind string // name | padded | const | ?
+		base ssa.Value
+	}
+	var padded *c10Padded
+	paddedOf := func(base ssa.Value) *c10Padded {
+		// (S1) a 16-byte buffer: copy(buf, Name) + pad loop
+		if n, ok := c10FixedBuf(base); ok {
+			p := &c10Padded{pad: -1, kind: "buffer", pos: base.Pos()}
+			if n != nameLen {
+				p.why = fmt.Sprintf("the name buffer has %d bytes", n)
+				return p
+			}
+			root := base
+			if sl, isSl := base.(*ssa.Slice); isSl {
+				root = sl.X
+			}
+			sameBuf := func(v ssa.Value) bool {
+				if v == base {
+					return true
+				}
+				if sl, isSl := v.(*ssa.Slice); isSl && sl.X == root {
+					if m, ok := c10FixedBuf(v); ok && m == nameLen {
+						return true
+					}
+				}
+				return v == root
+			}
+			copied := false
+			for _, b := range fle.fn.Blocks {
+				for _, in := range b.Instrs {
+					call, ok := in.(*ssa.Call)
+					if !ok {
+						continue
+					}
+					if bi, ok := call.Call.Value.(*ssa.Builtin); ok && bi.Name() == "copy" && sameBuf(call.Call.Args[0]) {
+						if f, _ := ex.Desc(wire.StripConv(call.Call.Args[1])); f == "Name" {
+							copied = true
+						}
+					}
+				}
+			}
+			for _, s := range stores {
+				if s.n != nameLen || !sameBuf(s.buf) {
+					continue
+				}
+				k, isK := ex.FoldConst(s.st.Val)
+				fromLen := s.loop && s.it.From != nil && c10IsLenOf(ex, s.it.From, "Name")
+				toK, toIsK := wConstOf(s.it.Bound)
+				if s.loop && isK && s.a == 1 && s.b == 0 && fromLen && toIsK && toK == nameLen {
+					p.pad, p.pos = k, s.st.Pos()
+				} else {
+					p.why = "the store into the 16-byte name buffer is not `name[i] = constant` for i = len(Name)..15"
+					p.pos = s.st.Pos()
+				}
+			}
+			if p.why == "" && p.pad < 0 {
+				p.why = "no padding loop recognised"
+			}
+			if p.why == "" && !copied {
+				p.why = "the name is never copied into the 16-byte buffer (copy(buf, Name) not found)"
+			}
+			return p
+		}
+		// (S1') buf := bytes.Repeat([]byte{P}, 16); copy(buf, Name)
+		if call, ok := base.(*ssa.Call); ok && call.Call.StaticCallee() != nil && call.Call.StaticCallee().Pkg != nil &&
+			call.Call.StaticCallee().Pkg.Pkg.Path() == "bytes" && call.Call.StaticCallee().Name() == "Repeat" {
+			p := &c10Padded{pad: -1, kind: "repeat+copy", pos: call.Pos()}
+			if k, isK := wConstOf(call.Call.Args[1]); !isK || k != nameLen {
+				p.why = "bytes.Repeat does not make exactly 16 bytes"
+				return p
+			}
+			unit, okU := call.Call.Args[0].(*ssa.Slice)
+			var unitAl *ssa.Alloc
+			if okU {
+				unitAl, _ = unit.X.(*ssa.Alloc)
+			}
+			if unitAl == nil {
+				p.why = "bytes.Repeat of something other than a one-byte literal"
+				return p
+			}
+			if n, okN := c10FixedBuf(unit); !okN || n != 1 {
+				p.why = "bytes.Repeat of something other than a one-byte literal"
+				return p
+			}
+			padK := int64(-1)
+			for _, r := range *unitAl.Referrers() {
+				if ia, isIA := r.(*ssa.IndexAddr); isIA {
+					for _, rr := range *ia.Referrers() {
+						if st, isSt := rr.(*ssa.Store); isSt {
+							if k, isK := ex.FoldConst(st.Val); isK && padK < 0 {
+								padK = k
+							} else {
+								padK = -2
+							}
+						}
+					}
+				}
+			}
+			if padK < 0 {
+				p.why = "the repeated byte is not a constant"
+				return p
+			}
+			// the only write into the buffer is copy(buf, Name)
+			copied := 0
+			for _, r := range *call.Referrers() {
+				switch y := r.(type) {
+				case *ssa.Call:
+					if bi, ok := y.Call.Value.(*ssa.Builtin); ok && bi.Name() == "copy" && y.Call.Args[0] == ssa.Value(call) {
+						if f, _ := ex.Desc(wire.StripConv(y.Call.Args[1])); f == "Name" {
+							copied++
+							continue
+						}
+						copied = -100
+					} else if ok && bi.Name() == "len" {
+						continue
+					} else {
+						copied = -100
+					}
+				case *ssa.IndexAddr:
+					for _, rr := range *y.Referrers() {
+						if _, isSt := rr.(*ssa.Store); isSt {
+							copied = -100
+						}
+					}
+				case *ssa.DebugRef, *ssa.Convert:
+				default:
+					copied = -100
+				}
+			}
+			if copied != 1 {
+				p.why = "the 16 pad bytes are not overwritten by exactly one copy(buf, Name)"
+				return p
+			}
+			p.pad = padK
+			return p
+		}
+		// (S3') Name + "                "[len(Name):]  (a constant run of 16 equal bytes)
+		if bo, ok := base.(*ssa.BinOp); ok && bo.Op == token.ADD {
+			if f, _ := ex.Desc(bo.X); f == "Name" {
+				if sl, ok := bo.Y.(*ssa.Slice); ok && sl.High == nil && sl.Max == nil && sl.Low != nil {
+					if k, isK := sl.X.(*ssa.Const); isK && k.Value != nil && k.Value.Kind() == constant.String {
+						p := &c10Padded{pad: -1, kind: "string", pos: sl.Pos()}
+						str := constant.StringVal(k.Value)
+						same := int64(len(str)) == nameLen
+						for i := range str {
+							if str[i] != str[0] {
+								same = false
+							}
+						}
+						if !same || !c10IsLenOf(ex, sl.Low, "Name") {
+							p.why = "the pad is not the tail, from len(Name), of a constant run of 16 equal bytes"
+							return p
+						}
+						p.pad = int64(str[0])
+						return p
+					}
+				}
+			}
+		}
+		// (S3) Name + strings.Repeat(P, 16-len(Name))
+		if bo, ok := base.(*ssa.BinOp); ok && bo.Op == token.ADD {
+			if f, _ := ex.Desc(bo.X); f == "Name" {
+				if call, ok := bo.Y.(*ssa.Call); ok {
+					if fn := call.Call.StaticCallee(); fn != nil && fn.Pkg != nil && fn.Pkg.Pkg.Path() == "strings" && fn.Name() == "Repeat" {
+						p := &c10Padded{pad: -1, kind: "string", pos: call.Pos()}
+						k, isK := call.Call.Args[0].(*ssa.Const)
+						if !isK || k.Value == nil || k.Value.Kind() != constant.String || len(constant.StringVal(k.Value)) != 1 {
+							p.why = "strings.Repeat of something other than a one-byte constant"
+							return p
+						}
+						cnt, isSub := call.Call.Args[1].(*ssa.BinOp)
+						if !isSub || cnt.Op != token.SUB || !c10IsLenOf(ex, cnt.Y, "Name") {
+							p.why = "the pad count is not 16 - len(Name)"
+							return p
+						}
+						if kk, isKK := wConstOf(cnt.X); !isKK || kk != nameLen {
+							p.why = "the pad count is not 16 - len(Name)"
+							return p
+						}
+						p.pad = int64(constant.StringVal(k.Value)[0])
+						return p
+					}
+				}
+			}
+		}
+		return nil
+	}
+	var curIt wire.LoopIter
+	var curSrc srcInfo
+	encAn := &lanes.Analyzer{}
+	encAn.Leaf = func(f *lanes.Frame, v ssa.Value) (lanes.Vec, bool) {
+		base, idx, ok := c10ByteRead(v)
 		if !ok {
 			return nil, false
 		}
-		n, ok := c10FixedBuf(ia.X)
-		if !ok || n != nameLen {
+		if _, isK := base.(*ssa.Const); isK {
 			return nil, false
 		}
-		a, b, iv, ok := c10Index(ex, ia.Index)
-		if !ok || a != 1 || b != 0 || iv != encIV {
+		a, b, ok := c10IndexIn(ex, idx, curIt)
+		if !ok || a != 1 || b != 0 {
 			return nil, false
 		}
+		base = wire.StripConv(base)
+		kind := ""
+		if f, _ := ex.Desc(base); f == "Name" {
+			kind = "name"
+		} else if p := paddedOf(base); p != nil {
+			kind = "padded"
+			if padded == nil {
+				padded = p
+			}
+		}
+		if kind == "" {
+			return nil, false
+		}
+		if curSrc.kind != "" && (curSrc.kind != kind || curSrc.base != base) {
+			if f1, _ := ex.Desc(curSrc.base); !(kind == "name" && f1 == "Name") {
+				return nil, false
+			}
+		}
+		curSrc = srcInfo{kind, base}
 		return lanes.SrcByte(0, 0), true
 	}
 	encFrame := encAn.Root(fle.fn)
-	for _, s := range c10Stores(ex, fle.fn) {
+
+	type grange struct {
+		fromK   int64
+		fromLen bool
+		toK     int64
+		toLen   bool
+		ok      bool
+	}
+	rangeOf := func(it wire.LoopIter) grange {
+		var g grange
+		g.ok = true
 		switch {
-		case s.n == encLen && s.iv != nil:
-			encSeen++
-			half := "high"
-			if s.b == 1 {
-				half = "low"
-			}
-			key := fmt.Sprintf("FirstLevelEncode: byte 2i+%d carries the %s nibble of name[i] plus 'A'", s.b, half)
-			if s.a != 2 || (s.b != 0 && s.b != 1) {
-				r.Fail("firstlevel", fmt.Sprintf("FirstLevelEncode: store at index %d·i+%d", s.a, s.b), c.P.Rel(s.st.Pos()), fmt.Sprintf("the encoded buffer is written at index %d·i+%d; the two nibbles of name[i] go to 2i and 2i+1", s.a, s.b))
+		case it.From == nil:
+			g.fromK = it.FromK
+		case c10IsLenOf(ex, it.From, "Name"):
+			g.fromLen = true
+		default:
+			g.ok = false
+		}
+		if k, isK := wConstOf(it.Bound); isK {
+			g.toK = k
+		} else if c10IsLenOf(ex, it.Bound, "Name") {
+			g.toLen = true
+		} else {
+			g.ok = false
+		}
+		return g
+	}
+
+	var nameGroup, padGroup *c10Emit
+	var nameSrc srcInfo
+	if !badStore {
+		for _, g := range groups {
+			if !g.has[0] || !g.has[1] {
 				continue
 			}
-			from, bound, okr := c10LoopRange(s.iv)
-			if k, isK := wConstOf(from); !okr || !isK || k != 0 || bound != nameLen {
-				r.Fail("firstlevel", key+" (loop range)", c.P.Rel(s.st.Pos()), fmt.Sprintf("the encoding loop does not run i = 0..%d", nameLen-1))
+			k0, c0 := ex.FoldConst(g.val[0])
+			k1, c1 := ex.FoldConst(g.val[1])
+			if c0 && c1 {
+				if padGroup != nil {
+					extra = "two constant groups"
+				}
+				padGroup = g
+				_, _ = k0, k1
 				continue
 			}
-			encIV = s.iv
-			x, k, _ := c10Peel(s.st.Val)
-			vec := encFrame.Lanes(x)
-			want := make(lanes.Vec, 8)
+			if nameGroup != nil {
+				extra = "two groups that encode name bytes"
+			}
+			nameGroup = g
+		}
+	}
+	nGroupsWithBoth := 0
+	for _, g := range groups {
+		if g.has[0] && g.has[1] {
+			nGroupsWithBoth++
+		}
+	}
+	encSeen := 0
+	if nameGroup != nil {
+		encSeen = 2
+		g := nameGroup
+		curIt, curSrc = g.it, srcInfo{}
+		var vecs [2]lanes.Vec
+		var ks [2]int64
+		var tblOK [2]bool
+		for h := 0; h < 2; h++ {
+			x, k, tbl, _ := c10Peel(g.val[h])
+			vecs[h] = encFrame.Lanes(x)
+			ks[h] = k
+			tblOK[h] = true
+			if tbl > 0 {
+				// the index must stay inside the table: lanes above log2(len) are 0
+				tblOK[h] = false
+				if tbl&(tbl-1) == 0 && vecs[h] != nil {
+					tblOK[h] = true
+					for bit := range vecs[h] {
+						if (1<<uint(bit)) >= tbl && vecs[h][bit].K != lanes.Zero {
+							tblOK[h] = false
+						}
+					}
+				}
+			}
+		}
+		nameSrc = curSrc
+		rg := rangeOf(g.it)
+		rangeOK := false
+		switch nameSrc.kind {
+		case "padded":
+			rangeOK = rg.ok && !rg.fromLen && rg.fromK == 0 && !rg.toLen && rg.toK == nameLen && padGroup == nil
+		case "name":
+			rangeOK = rg.ok && !rg.fromLen && rg.fromK == 0 && rg.toLen
+		default:
+			rangeOK = true // the source byte was not recognised: the provenance mismatch below says so
+		}
+		for h := 0; h < 2; h++ {
+			key := halfKey(h)
+			pos := c.P.Rel(g.pos[h])
 			shift := 4
-			if s.b == 1 {
+			if h == 1 {
 				shift = 0
 			}
+			want := make(lanes.Vec, 8)
 			for bit := 0; bit < 4; bit++ {
 				want[bit] = lanes.Bit{K: lanes.Src, S: 0, I: 0, B: bit + shift}
 			}
-			if vec != nil && vec.Equal(want) {
-				encK[s.b], encOK[s.b] = k, true
-				if k == asciiA {
-					r.OK("firstlevel", key, c.P.Rel(s.st.Pos()), fmt.Sprintf("bits %d..%d of name[i], + %#x", shift, shift+3, k))
-				} else {
-					r.Fail("firstlevel", key, c.P.Rel(s.st.Pos()), fmt.Sprintf("the nibble is offset by %#x, not by ASCII_A = %#x", k, asciiA))
-				}
-			} else {
-				r.Fail("firstlevel", key, c.P.Rel(s.st.Pos()), fmt.Sprintf("byte 2i+%d of the encoding is not (name[i] bits %d..%d) + constant; bit provenance: %s", s.b, shift, shift+3, c10Vec(vec)))
-			}
-		case s.n == nameLen && s.iv != nil:
-			// padding loop: name[i] = ' ' for i = len(n.Name) .. 15
-			key := "FirstLevelEncode: the name is padded to 16 bytes with spaces"
-			k, isK := wConstOf(s.st.Val)
-			from, bound, okr := c10LoopRange(s.iv)
-			fromLen := false
-			if call, ok := from.(*ssa.Call); ok {
-				if bi, ok := call.Call.Value.(*ssa.Builtin); ok && bi.Name() == "len" {
-					if f, _ := ex.Desc(call.Call.Args[0]); f == "Name" {
-						fromLen = true
+			vec := vecs[h]
+			if len(vec) > 8 {
+				// an int-typed table index: the upper lanes must be 0
+				hiZero := true
+				for _, b := range vec[8:] {
+					if b.K != lanes.Zero {
+						hiZero = false
 					}
 				}
-			}
-			if isK && okr && s.a == 1 && s.b == 0 && bound == nameLen && fromLen {
-				padByte = k
-				if k == 0x20 {
-					r.OK("firstlevel", key, c.P.Rel(s.st.Pos()), "name[i] = ' ' for i = len(Name)..15")
-				} else {
-					r.Fail("firstlevel", key, c.P.Rel(s.st.Pos()), fmt.Sprintf("the pad byte is %#x; RFC 1001 §14.1 pads with spaces (0x20)", k))
+				if hiZero {
+					vec = vec[:8]
 				}
-			} else {
-				r.Fail("firstlevel", key, c.P.Rel(s.st.Pos()), "the store into the 16-byte name buffer is not `name[i] = constant` for i = len(Name)..15")
+			}
+			switch {
+			case !rangeOK:
+				r.Fail("firstlevel", key+" (loop range)", pos, fmt.Sprintf("the encoding loop does not run i = 0..%d", nameLen-1))
+			case vec != nil && vec.Equal(want) && tblOK[h]:
+				encK[h], encOK[h] = ks[h], true
+				if ks[h] == asciiA {
+					r.OK("firstlevel", key, pos, fmt.Sprintf("bits %d..%d of name[i], + %#x", shift, shift+3, ks[h]))
+				} else {
+					r.Fail("firstlevel", key, pos, fmt.Sprintf("the nibble is offset by %#x, not by ASCII_A = %#x", ks[h], asciiA))
+				}
+			default:
+				r.Fail("firstlevel", key, pos, fmt.Sprintf("byte 2i+%d of the encoding is not (name[i] bits %d..%d) + constant; bit provenance: %s", h, shift, shift+3, c10Vec(vec)))
+			}
+		}
+		// padding
+		switch nameSrc.kind {
+		case "padded":
+			p := padded
+			padDone = true
+			switch {
+			case p == nil || p.why != "":
+				why := "no padding recognised"
+				pos := fle.pos
+				if p != nil {
+					why, pos = p.why, c.P.Rel(p.pos)
+				}
+				if p != nil && strings.HasPrefix(p.why, "no padding loop") {
+					r.Undecided("firstlevel", padKey, fle.pos, p.why)
+				} else {
+					r.Fail("firstlevel", padKey, pos, why)
+				}
+			case p.pad == 0x20:
+				padByte = p.pad
+				r.OK("firstlevel", padKey, c.P.Rel(p.pos), "name[i] = ' ' for i = len(Name)..15")
+			default:
+				padByte = p.pad
+				r.Fail("firstlevel", padKey, c.P.Rel(p.pos), fmt.Sprintf("the pad byte is %#x; RFC 1001 §14.1 pads with spaces (0x20)", p.pad))
+			}
+		case "name":
+			padDone = true
+			switch {
+			case padGroup == nil:
+				r.Fail("firstlevel", padKey, fle.pos, "only the len(Name) bytes of the name are encoded: nothing fills the encoding up to 16 name bytes")
+			default:
+				pr := rangeOf(padGroup.it)
+				k0, _ := ex.FoldConst(padGroup.val[0])
+				k1, _ := ex.FoldConst(padGroup.val[1])
+				n0, n1 := k0-asciiA, k1-asciiA
+				pos := c.P.Rel(padGroup.pos[0])
+				switch {
+				case !(pr.ok && pr.fromLen && !pr.toLen && pr.toK == nameLen):
+					r.Fail("firstlevel", padKey, pos, "the loop that emits the encoded pad byte does not run i = len(Name)..15")
+				case n0 < 0 || n0 > 15 || n1 < 0 || n1 > 15:
+					r.Fail("firstlevel", padKey, pos, fmt.Sprintf("the padding bytes %#x %#x are not two nibbles offset by ASCII_A", k0, k1))
+				case n0<<4|n1 == 0x20:
+					padByte = 0x20
+					r.OK("firstlevel", padKey, pos, fmt.Sprintf("i = len(Name)..15 emit %q %q = the encoding of ' '", rune(k0), rune(k1)))
+				default:
+					padByte = n0<<4 | n1
+					r.Fail("firstlevel", padKey, pos, fmt.Sprintf("the pad byte is %#x; RFC 1001 §14.1 pads with spaces (0x20)", padByte))
+				}
 			}
 		}
 	}
-	if encSeen < 2 {
-		r.Undecided("firstlevel", "FirstLevelEncode: nibble stores", fle.pos, fmt.Sprintf("expected two stores into the %d-byte encoded buffer inside the loop, found %d", encLen, encSeen))
+	if extra != "" && collector == "stores" {
+		r.Fail("firstlevel", "FirstLevelEncode: nibble stores (extra)", fle.pos, extra)
 	}
-	if padByte < 0 {
-		r.Undecided("firstlevel", "FirstLevelEncode: the name is padded to 16 bytes with spaces", fle.pos, "no padding loop recognised")
-	}
-	// scope separator
-	encSep := ""
-	for _, b := range fle.fn.Blocks {
-		for _, in := range b.Instrs {
-			bo, ok := in.(*ssa.BinOp)
-			if !ok || bo.Op != token.ADD {
-				continue
-			}
-			if k, ok := bo.Y.(*ssa.Const); ok && k.Value != nil && k.Value.Kind() == constant.String {
-				if cv, ok := bo.X.(*ssa.Convert); ok {
-					if n, ok := c10FixedBuf(cv.X); ok && n == encLen {
-						encSep = constant.StringVal(k.Value)
-					}
+	if encSeen < 2 && !badStore {
+		n := 0
+		for _, g := range groups {
+			for h := 0; h < 2; h++ {
+				if g.has[h] {
+					n++
 				}
 			}
+		}
+		r.Undecided("firstlevel", "FirstLevelEncode: nibble stores", fle.pos, fmt.Sprintf("expected two bytes per name byte written into the %d-byte encoding inside a loop (stores encoded[2i], encoded[2i+1] or append(encoded, hi, lo)), found %d", encLen, n))
+	}
+	if !padDone {
+		// the padded buffer may exist although the nibble stores were not recognised
+		found := false
+		for _, s := range stores {
+			if s.n == nameLen && s.loop && !found {
+				found = true
+				if p := paddedOf(s.buf); p != nil && p.why == "" {
+					padByte = p.pad
+					if p.pad == 0x20 {
+						r.OK("firstlevel", padKey, c.P.Rel(p.pos), "name[i] = ' ' for i = len(Name)..15")
+					} else {
+						r.Fail("firstlevel", padKey, c.P.Rel(p.pos), fmt.Sprintf("the pad byte is %#x; RFC 1001 §14.1 pads with spaces (0x20)", p.pad))
+					}
+				} else if p != nil {
+					r.Fail("firstlevel", padKey, c.P.Rel(p.pos), p.why)
+				} else {
+					found = false
+				}
+			}
+		}
+		if !found {
+			r.Undecided("firstlevel", padKey, fle.pos, "no padding loop recognised")
+		}
+	}
+	// scope separator: the constant emitted immediately before the ScopeID bytes
+	encSep := ""
+	for i, a := range layout {
+		if a.Kind != "bytes" || a.Field != "ScopeID" || i == 0 {
+			continue
+		}
+		p := layout[i-1]
+		if p.Kind != "const" || p.Width != 1 {
+			continue
+		}
+		if s, err := strconv.Unquote(p.Expr); err == nil && len(s) == 1 {
+			encSep = s
+		} else if k, err := strconv.ParseInt(p.Expr, 10, 64); err == nil && k >= 0 && k < 256 {
+			encSep = string([]byte{byte(k)})
 		}
 	}
 
@@ -574,22 +1103,119 @@ func c10FirstLevel(c *Ctx, w *prove.World, fle, fld *wcodec) {
 		val  ssa.Value
 	}
 	nibs := map[ssa.Value]*nib{}
-	var decIV ssa.Value
-	var decStore *c10Store
+	// the decoded byte i is collected either by a store decoded[i] = v into a
+	// 16-byte buffer or by decoded = append(decoded, v) in a loop that starts
+	// from an empty slice
+	type decSink struct {
+		st  ssa.Instruction // where v is consumed (E1 proofs are made here)
+		Val ssa.Value
+		it  wire.LoopIter
+		buf map[ssa.Value]bool // values that denote the 16 decoded bytes after the loop
+	}
+	var decStore *decSink
 	for _, s := range c10Stores(dx, fld.fn) {
-		if s.n == nameLen && s.iv != nil && s.a == 1 && s.b == 0 {
-			ss := s
-			decStore = &ss
-			decIV = s.iv
+		if s.n == nameLen && s.loop && s.a == 1 && s.b == 0 {
+			decStore = &decSink{st: s.st, Val: s.st.Val, it: s.it}
+		}
+	}
+	if decStore == nil {
+		for _, b := range fld.fn.Blocks {
+			for _, in := range b.Instrs {
+				app, ok := in.(*ssa.Call)
+				if !ok || len(app.Call.Args) != 2 {
+					continue
+				}
+				if bi, isB := app.Call.Value.(*ssa.Builtin); !isB || bi.Name() != "append" {
+					continue
+				}
+				phi, ok := app.Call.Args[0].(*ssa.Phi)
+				if !ok {
+					continue
+				}
+				hb, it, ok := c10LoopAt(dx, b)
+				if !ok || phi.Block() != hb {
+					continue
+				}
+				// one byte per iteration: append(φ, v) with v in a [1]byte varargs array
+				sl, ok := app.Call.Args[1].(*ssa.Slice)
+				if !ok {
+					continue
+				}
+				al, ok := sl.X.(*ssa.Alloc)
+				if n, okN := c10FixedBuf(sl); !ok || !okN || n != 1 {
+					continue
+				}
+				var v ssa.Value
+				nst := 0
+				for _, r := range *al.Referrers() {
+					if ia, isIA := r.(*ssa.IndexAddr); isIA {
+						for _, rr := range *ia.Referrers() {
+							if st, isSt := rr.(*ssa.Store); isSt {
+								v = st.Val
+								nst++
+							}
+						}
+					}
+				}
+				if nst != 1 {
+					continue
+				}
+				// φ = [empty on entry, the append on the back edge]
+				okPhi := true
+				var entry ssa.Value
+				for i, pr := range hb.Preds {
+					if hb.Dominates(pr) {
+						if phi.Edges[i] != ssa.Value(app) {
+							okPhi = false
+						}
+					} else {
+						entry = phi.Edges[i]
+					}
+				}
+				empty := false
+				switch e := entry.(type) {
+				case *ssa.Const:
+					empty = e.Value == nil
+				case *ssa.MakeSlice:
+					k, isK := wConstOf(e.Len)
+					empty = isK && k == 0
+				case *ssa.Slice:
+					if n, okN := c10FixedBuf(e); okN && n == 0 {
+						empty = true
+					}
+				}
+				if !okPhi || !empty {
+					continue
+				}
+				sink := &decSink{st: app, Val: v, it: it, buf: map[ssa.Value]bool{phi: true, app: true}}
+				// the value after the loop: φ itself, or a φ joining it with the entry value
+				for _, bb := range fld.fn.Blocks {
+					for _, in2 := range bb.Instrs {
+						p2, isPhi := in2.(*ssa.Phi)
+						if !isPhi || p2 == phi {
+							continue
+						}
+						all := true
+						for _, e := range p2.Edges {
+							if e != ssa.Value(phi) && e != ssa.Value(app) && e != entry {
+								all = false
+							}
+						}
+						if all {
+							sink.buf[p2] = true
+						}
+					}
+				}
+				decStore = sink
+			}
 		}
 	}
 	key := "FirstLevelDecode: byte i is (byte 2i − 'A') << 4 | (byte 2i+1 − 'A')"
 	if decStore == nil {
-		r.Undecided("firstlevel", key, fld.pos, "no store decoded[i] = … into a 16-byte buffer inside a loop")
+		r.Undecided("firstlevel", key, fld.pos, "no store decoded[i] = … into a 16-byte buffer (and no decoded = append(decoded, …)) inside a loop")
 		return
 	}
-	from, bound, okr := c10LoopRange(decIV)
-	if k, isK := wConstOf(from); !okr || !isK || k != 0 || bound != nameLen {
+	if k, isK := wConstOf(decStore.it.Bound); decStore.it.From != nil || decStore.it.FromK != 0 || !isK || k != nameLen {
 		r.Fail("firstlevel", "FirstLevelDecode: loop range", c.P.Rel(decStore.st.Pos()), fmt.Sprintf("the decoding loop does not run i = 0..%d", nameLen-1))
 	} else {
 		r.OK("firstlevel", "FirstLevelDecode: loop range", c.P.Rel(decStore.st.Pos()), fmt.Sprintf("i = 0..%d", nameLen-1))
@@ -598,26 +1224,16 @@ func c10FirstLevel(c *Ctx, w *prove.World, fle, fld *wcodec) {
 	unbounded := ""
 	decAn := &lanes.Analyzer{}
 	decAn.Leaf = func(f *lanes.Frame, v ssa.Value) (lanes.Vec, bool) {
-		x, k, peeled := c10Peel(v)
+		x, k, _, peeled := c10Peel(v)
 		if !peeled || k >= 0 {
 			return nil, false
 		}
-		var base, idx ssa.Value
-		switch t := x.(type) {
-		case *ssa.Lookup:
-			base, idx = t.X, t.Index
-		case *ssa.Index:
-			base, idx = t.X, t.Index
-		case *ssa.UnOp:
-			if ia, ok := t.X.(*ssa.IndexAddr); ok && t.Op == token.MUL {
-				base, idx = ia.X, ia.Index
-			}
-		}
-		if base == nil {
+		base, idx, ok := c10ByteRead(x)
+		if !ok {
 			return nil, false
 		}
-		a, b, iv, ok := c10Index(dx, idx)
-		if !ok || a != 2 || iv != decIV || (b != 0 && b != 1) {
+		a, b, ok := c10IndexIn(dx, idx, decStore.it)
+		if !ok || a != 2 || (b != 0 && b != 1) {
 			return nil, false
 		}
 		if srcStr == nil {
@@ -637,7 +1253,7 @@ func c10FirstLevel(c *Ctx, w *prove.World, fle, fld *wcodec) {
 		}
 		return out, true
 	}
-	vec := decAn.Root(fld.fn).Lanes(decStore.st.Val)
+	vec := decAn.Root(fld.fn).Lanes(decStore.Val)
 	if vec == nil || vec.HasTop() {
 		r.Note("FirstLevelDecode lanes: %s", strings.Join(decAn.Why, "; "))
 	}
@@ -685,7 +1301,7 @@ func c10FirstLevel(c *Ctx, w *prove.World, fle, fld *wcodec) {
 	// trim ↔ pad, split ↔ separator
 	key = "FirstLevelDecode: trims exactly the pad byte"
 	foundTrim := false
-	decSep, decN := "", int64(0)
+	decSep, decHow, decFirst := "", "", false
 	for _, b := range fld.fn.Blocks {
 		for _, in := range b.Instrs {
 			call, ok := in.(*ssa.Call)
@@ -696,22 +1312,74 @@ func c10FirstLevel(c *Ctx, w *prove.World, fle, fld *wcodec) {
 			if f == nil || f.Pkg == nil {
 				continue
 			}
+			strArg := func(i int) (string, bool) {
+				if i >= len(call.Call.Args) {
+					return "", false
+				}
+				k, ok := call.Call.Args[i].(*ssa.Const)
+				if !ok || k.Value == nil {
+					return "", false
+				}
+				switch k.Value.Kind() {
+				case constant.String:
+					return constant.StringVal(k.Value), true
+				case constant.Int:
+					if v, ok := constant.Int64Val(k.Value); ok && v >= 0 && v < 256 {
+						return string([]byte{byte(v)}), true
+					}
+				}
+				return "", false
+			}
 			switch f.Pkg.Pkg.Path() + "." + f.Name() {
 			case "bytes.TrimRight", "strings.TrimRight":
-				if n, ok := c10FixedBuf(wire.StripConv(call.Call.Args[0])); ok && n == nameLen {
+				if n, ok := c10FixedBuf(wire.StripConv(call.Call.Args[0])); (ok && n == nameLen) || decStore.buf[wire.StripConv(call.Call.Args[0])] {
 					foundTrim = true
-					cut, isK := call.Call.Args[1].(*ssa.Const)
-					if isK && cut.Value != nil && cut.Value.Kind() == constant.String && padByte >= 0 && constant.StringVal(cut.Value) == string(rune(padByte)) {
+					cut, isK := strArg(1)
+					if isK && padByte >= 0 && cut == string([]byte{byte(padByte)}) {
 						r.OK("firstlevel", key, c.P.Rel(call.Pos()), fmt.Sprintf("TrimRight cutset is the pad byte %#x", padByte))
 					} else {
 						r.Fail("firstlevel", key, c.P.Rel(call.Pos()), fmt.Sprintf("TrimRight removes %s but the encoder pads with %#x", call.Call.Args[1].String(), padByte))
 					}
 				}
 			case "strings.SplitN":
-				if k, ok := call.Call.Args[1].(*ssa.Const); ok && k.Value != nil && k.Value.Kind() == constant.String {
-					decSep = constant.StringVal(k.Value)
+				decSep, _ = strArg(1)
+				n, _ := wConstOf(call.Call.Args[2])
+				decHow = fmt.Sprintf("SplitN(…, %d)", n)
+				decFirst = n == 2
+			case "strings.Cut":
+				decSep, _ = strArg(1)
+				decHow, decFirst = "Cut", true
+			case "strings.Split":
+				decSep, _ = strArg(1)
+				decHow, decFirst = "Split (every occurrence)", false
+			case "strings.Index", "strings.IndexByte":
+				// s[:i] and s[i+1:] of the first occurrence
+				sep, okS := strArg(1)
+				if !okS {
+					continue
 				}
-				decN, _ = wConstOf(call.Call.Args[2])
+				s0 := call.Call.Args[0]
+				before, after := false, false
+				for _, bb := range fld.fn.Blocks {
+					for _, in2 := range bb.Instrs {
+						sl, ok := in2.(*ssa.Slice)
+						if !ok || sl.X != s0 {
+							continue
+						}
+						if sl.Low == nil && sl.High == ssa.Value(call) {
+							before = true
+						}
+						if sl.High == nil && sl.Low != nil && dx.Sym(sl.Low).Equal(dx.Sym(call).AddK(int64(len(sep)))) {
+							after = true
+						}
+					}
+				}
+				if before && after {
+					decSep, decHow, decFirst = sep, f.Name()+" + s[:i], s[i+len(sep):]", true
+				}
+			case "strings.LastIndex", "strings.LastIndexByte":
+				decSep, _ = strArg(1)
+				decHow, decFirst = f.Name()+" (last occurrence)", false
 			}
 		}
 	}
@@ -722,10 +1390,10 @@ func c10FirstLevel(c *Ctx, w *prove.World, fle, fld *wcodec) {
 	switch {
 	case encSep == "" || decSep == "":
 		r.Undecided("firstlevel", key, fld.pos, fmt.Sprintf("separator not found (encoder %q, decoder %q)", encSep, decSep))
-	case encSep == decSep && decN == 2:
-		r.OK("firstlevel", key, fld.pos, fmt.Sprintf("%q, SplitN(…, 2)", encSep))
+	case encSep == decSep && decFirst:
+		r.OK("firstlevel", key, fld.pos, fmt.Sprintf("%q, %s", encSep, decHow))
 	default:
-		r.Fail("firstlevel", key, fld.pos, fmt.Sprintf("the encoder joins name and scope with %q, the decoder uses SplitN(encoded, %q, %d): a scope containing the separator does not survive", encSep, decSep, decN))
+		r.Fail("firstlevel", key, fld.pos, fmt.Sprintf("the encoder joins name and scope with %q, the decoder uses %s on %q: the encoded name contains no separator, so the FIRST occurrence ends it; a scope containing the separator does not survive otherwise", encSep, decHow, decSep))
 	}
 }
 
